@@ -453,6 +453,11 @@ def oracle(case, res):
             if not (num(lb) and num(lt)) or (lb is not None and lt is not None and lt < lb):
                 add('slave-port', 'last_sync', 'port %s: last_sync is %s before the restart and %s %s (not a number, or earlier)' % (
                     pid, json.dumps(lb), json.dumps(lt), when), {'before': lb, 'after': lt})
+        if '.' in pid and bp.get('expression'):
+            # the expression of a slave port is evaluated again once the hub runs; for an offline device its result becomes a
+            # pending value: activity after the restart, not something that was (not) restored
+            for v_ in (vb, vt):
+                v_['provisioning'] = [x_ for x_ in v_.get('provisioning') or [] if x_ != 'value']
         d = diff(vb, vt)
         for f, (x, y) in sorted(d.items()):
             failed = [o for o, lg in zip(case['ops'], res['log']) if o['op'] == 'patch_port' and o['id'] == pid and lg[0] >= 400
